@@ -494,12 +494,320 @@ pub open spec fn ins_law<V>(old: Multiset<LeafV<V>>, new: Multiset<LeafV<V>>, p:
     // ... or a new leaf holding just this value is added; nothing else changes
     || new == old.insert((p, Map::<String, V>::empty().insert(id, v)))
 }
+// ---------------------------------------------------------------- one leaf per pattern (C08: "storing a value under an existing (pattern, id) replaces it")
+// The tree keeps at most one leaf per pattern. That is an invariant of the SHAPE (an insertion finds the existing leaf only if the descent
+// cannot miss it), so the shape facts the descent relies on are part of it:
+//   I0  a node's prefix ends at a boundary of itself;
+//   I1  a child that is a node has a strictly longer prefix than its parent;
+//   I3  two children of a node share no boundary prefix longer than the node's prefix.
+pub open spec fn sib_apart<V>(cs: Seq<Item<V>>, o: Seq<char>) -> bool {
+    forall|i: int, j: int, q: Seq<char>| 0 <= i < cs.len() && 0 <= j < cs.len() && i != j && #[trigger] bprefix(q, item_pat(cs[i])) && #[trigger] bprefix(q, item_pat(cs[j])) ==> q.len() <= o.len()
+}
+pub open spec fn tight<V>(it: Item<V>) -> bool
+    decreases it
+{
+    match it {
+        Item::Node(n) => {
+            &&& boundary(n.regex.original@, n.regex.original@.len() as int)
+            &&& forall|i: int| 0 <= i < n.children@.len() ==> tight(#[trigger] n.children@[i]) && (n.children@[i] is Node ==> item_pat(n.children@[i]).len() > n.regex.original@.len())
+            &&& sib_apart(n.children@, n.regex.original@)
+        }
+        _ => true,
+    }
+}
+pub open spec fn has_pat<V>(ms: Multiset<LeafV<V>>, p: Seq<char>) -> bool { exists|m: Map<String, V>| #[trigger] ms.count((p, m)) > 0 }
+pub open spec fn uniq_pats<V>(ms: Multiset<LeafV<V>>) -> bool {
+    forall|p: Seq<char>, m1: Map<String, V>, m2: Map<String, V>| #[trigger] ms.count((p, m1)) > 0 && #[trigger] ms.count((p, m2)) > 0 ==> m1 == m2 && ms.count((p, m1)) == 1
+}
+pub open spec fn good<V>(it: Item<V>) -> bool { tight(it) && uniq_pats(leaves_ms(it)) }
+// the insertion law with the replace clause: a NEW leaf appears only when no leaf carries the pattern yet
+pub open spec fn ins_law2<V>(old: Multiset<LeafV<V>>, new: Multiset<LeafV<V>>, p: Seq<char>, id: String, v: V) -> bool {
+    (exists|m: Map<String, V>| #[trigger] old.count((p, m)) > 0 && new == old.remove((p, m)).insert((p, m.insert(id, v))))
+    || (!has_pat(old, p) && new == old.insert((p, Map::<String, V>::empty().insert(id, v))))
+}
+pub open spec fn pre_or_eq(a: Seq<char>, b: Seq<char>) -> bool { a == b || bprefix(a, b) }
+
+pub proof fn lemma_uniq_ins<V>(old: Multiset<LeafV<V>>, new: Multiset<LeafV<V>>, p: Seq<char>, id: String, v: V)
+    requires uniq_pats(old), ins_law2(old, new, p, id, v),
+    ensures uniq_pats(new),
+{
+    if exists|m: Map<String, V>| #[trigger] old.count((p, m)) > 0 && new == old.remove((p, m)).insert((p, m.insert(id, v))) {
+        let m = choose|m: Map<String, V>| #[trigger] old.count((p, m)) > 0 && new == old.remove((p, m)).insert((p, m.insert(id, v)));
+        let m2 = m.insert(id, v);
+        assert(old.count((p, m)) == 1);
+        assert forall|q: Seq<char>, a: Map<String, V>, b: Map<String, V>| #[trigger] new.count((q, a)) > 0 && #[trigger] new.count((q, b)) > 0 implies a == b && new.count((q, a)) == 1 by {
+            if q == p {
+                if a != m2 { assert(old.count((q, a)) > 0); assert(a == m); assert(new.count((q, a)) == 0) by { assert(old.remove((p, m)).count((p, m)) == 0); } }
+                if b != m2 { assert(old.count((q, b)) > 0); assert(b == m); assert(new.count((q, b)) == 0) by { assert(old.remove((p, m)).count((p, m)) == 0); } }
+                if m2 != m { assert(old.count((p, m2)) == 0) by { if old.count((p, m2)) > 0 { assert(m2 == m); } } }
+            } else {
+                assert(old.count((q, a)) > 0 && old.count((q, b)) > 0);
+            }
+        }
+    } else {
+        let nl = (p, Map::<String, V>::empty().insert(id, v));
+        assert forall|q: Seq<char>, a: Map<String, V>, b: Map<String, V>| #[trigger] new.count((q, a)) > 0 && #[trigger] new.count((q, b)) > 0 implies a == b && new.count((q, a)) == 1 by {
+            if q == p {
+                if (q, a) != nl { assert(old.count((p, a)) > 0); }
+                if (q, b) != nl { assert(old.count((p, b)) > 0); }
+                assert(old.count(nl) == 0) by { if old.count(nl) > 0 { assert(old.count((p, nl.1)) > 0); } }
+            } else {
+                assert(old.count((q, a)) > 0 && old.count((q, b)) > 0);
+            }
+        }
+    }
+}
+pub proof fn lemma_uniq_sub<V>(a: Multiset<LeafV<V>>, b: Multiset<LeafV<V>>)
+    requires uniq_pats(a.add(b)),
+    ensures uniq_pats(a), uniq_pats(b), forall|p: Seq<char>| !(has_pat(a, p) && has_pat(b, p)),
+{
+    let t = a.add(b);
+    assert forall|p: Seq<char>, m1: Map<String, V>, m2: Map<String, V>| #[trigger] a.count((p, m1)) > 0 && #[trigger] a.count((p, m2)) > 0 implies m1 == m2 && a.count((p, m1)) == 1 by { assert(t.count((p, m1)) > 0 && t.count((p, m2)) > 0); }
+    assert forall|p: Seq<char>, m1: Map<String, V>, m2: Map<String, V>| #[trigger] b.count((p, m1)) > 0 && #[trigger] b.count((p, m2)) > 0 implies m1 == m2 && b.count((p, m1)) == 1 by { assert(t.count((p, m1)) > 0 && t.count((p, m2)) > 0); }
+    assert forall|p: Seq<char>| !(has_pat(a, p) && has_pat(b, p)) by {
+        if has_pat(a, p) && has_pat(b, p) {
+            let m1 = choose|m: Map<String, V>| #[trigger] a.count((p, m)) > 0; let m2 = choose|m: Map<String, V>| #[trigger] b.count((p, m)) > 0;
+            assert(t.count((p, m1)) > 0 && t.count((p, m2)) > 0);
+            assert(m1 == m2 && t.count((p, m1)) == 1);
+        }
+    }
+}
+pub proof fn lemma_ins_law2_lift<V>(rest: Multiset<LeafV<V>>, c0: Multiset<LeafV<V>>, c1: Multiset<LeafV<V>>, p: Seq<char>, id: String, v: V)
+    requires ins_law2(c0, c1, p, id, v), !has_pat(rest, p),
+    ensures ins_law2(rest.add(c0), rest.add(c1), p, id, v),
+{
+    if exists|m: Map<String, V>| #[trigger] c0.count((p, m)) > 0 && c1 == c0.remove((p, m)).insert((p, m.insert(id, v))) {
+        let m = choose|m: Map<String, V>| #[trigger] c0.count((p, m)) > 0 && c1 == c0.remove((p, m)).insert((p, m.insert(id, v)));
+        assert(rest.add(c0).count((p, m)) > 0);
+        assert(rest.add(c1) =~= rest.add(c0).remove((p, m)).insert((p, m.insert(id, v))));
+    } else {
+        assert(rest.add(c1) =~= rest.add(c0).insert((p, Map::<String, V>::empty().insert(id, v))));
+        assert(!has_pat(rest.add(c0), p)) by {
+            if has_pat(rest.add(c0), p) { let m = choose|m: Map<String, V>| #[trigger] rest.add(c0).count((p, m)) > 0; assert(rest.count((p, m)) > 0 || c0.count((p, m)) > 0); }
+        }
+    }
+}
+// a leaf found among the first k children sits below one of them
+pub proof fn lemma_children_has<V>(cs: Seq<Item<V>>, k: int, lf: LeafV<V>)
+    requires 0 <= k <= cs.len(), leaves_children(cs, k).count(lf) > 0,
+    ensures exists|j: int| 0 <= j < k && leaves_ms(#[trigger] cs[j]).count(lf) > 0,
+    decreases k,
+{
+    if k > 0 {
+        if leaves_ms(cs[k - 1]).count(lf) > 0 { } else { lemma_children_has(cs, k - 1, lf); let j = choose|j: int| 0 <= j < k - 1 && leaves_ms(#[trigger] cs[j]).count(lf) > 0; assert(0 <= j < k); }
+    }
+}
+pub proof fn lemma_children_count_ge<V>(cs: Seq<Item<V>>, k: int, j: int, lf: LeafV<V>)
+    requires 0 <= j < k <= cs.len(),
+    ensures leaves_children(cs, k).count(lf) >= leaves_ms(cs[j]).count(lf),
+    decreases k,
+{ if j < k - 1 { lemma_children_count_ge(cs, k - 1, j, lf); } }
+pub proof fn lemma_children_count_ge2<V>(cs: Seq<Item<V>>, k: int, i: int, j: int, lf: LeafV<V>)
+    requires 0 <= i < j < k <= cs.len(),
+    ensures leaves_children(cs, k).count(lf) >= leaves_ms(cs[i]).count(lf) + leaves_ms(cs[j]).count(lf),
+    decreases k,
+{ if j < k - 1 { lemma_children_count_ge2(cs, k - 1, i, j, lf); } else { lemma_children_count_ge(cs, k - 1, i, lf); } }
+// every leaf below an item extends the item's pattern
+pub proof fn lemma_leaves_prefix<V>(it: Item<V>, lf: LeafV<V>)
+    requires wf(it), leaves_ms(it).count(lf) > 0,
+    ensures pre_or_eq(item_pat(it), lf.0), it is Leaf ==> lf.0 == item_pat(it), it is Node ==> bprefix(item_pat(it), lf.0),
+    decreases it,
+{
+    match it {
+        Item::Node(n) => {
+            lemma_children_has(n.children@, n.children@.len() as int, lf);
+            let j = choose|j: int| 0 <= j < n.children@.len() && leaves_ms(#[trigger] n.children@[j]).count(lf) > 0;
+            let c = n.children@[j];
+            assert(wf(c) && bprefix(n.regex.original@, item_pat(c)));
+            lemma_leaves_prefix(c, lf);
+            if item_pat(c) != lf.0 { lemma_bprefix_trans(n.regex.original@, item_pat(c), lf.0); }
+        }
+        _ => {}
+    }
+}
+// a boundary prefix of p, cut to a shorter boundary of p, is a boundary prefix of anything sharing that much of p
+pub proof fn lemma_bprefix_share(p: Seq<char>, c: Seq<char>, m: int, k: int)
+    requires 0 <= k <= m <= p.len(), m <= c.len(), p.take(m) == c.take(m), boundary(p, k),
+    ensures bprefix(p.take(k), c), bprefix(p.take(k), p),
+{
+    assert(p.take(k) =~= p.take(m).take(k)); assert(c.take(k) =~= c.take(m).take(k));
+    lemma_scan_prefix(p, c, k);
+}
+pub open spec fn shares(p: Seq<char>, c: Seq<char>, mm: int) -> bool { 0 <= mm <= p.len() && mm <= c.len() && p.take(mm) == c.take(mm) && boundary(p, mm) }
+pub open spec fn eqsel<V>(sel: Option<usize>, cs: Seq<Item<V>>, p: Seq<char>) -> bool { match sel { Some(k) => k < cs.len() && item_pat(cs[k as int]) == p, None => false } }
+pub open spec fn none_eq<V>(cs: Seq<Item<V>>, n: int, p: Seq<char>) -> bool { forall|j: int| 0 <= j < n ==> item_pat(#[trigger] cs[j]) != p }
+pub open spec fn caps<V>(cs: Seq<Item<V>>, n: int, p: Seq<char>, mm: int) -> bool {
+    forall|j: int, q: Seq<char>| 0 <= j < n && bprefix(q, p) && #[trigger] bprefix(q, item_pat(cs[j])) ==> q.len() <= mm
+}
+// one more child examined: its common boundary prefix with p is at most `sz` (postcondition of common_prefix_char_size), the maximum only grows
+pub proof fn lemma_caps_step<V>(cs: Seq<Item<V>>, n: int, p: Seq<char>, m0: int, m1: int, sz: int)
+    requires caps(cs, n, p, m0), m0 <= m1, sz <= m1, 0 <= n < cs.len(),
+        forall|m: int| 0 <= m <= p.len() && m <= item_pat(cs[n]).len() && p.take(m) == item_pat(cs[n]).take(m) && boundary(p, m) ==> m <= sz,
+    ensures caps(cs, n + 1, p, m1),
+{
+    assert forall|j: int, q: Seq<char>| 0 <= j < n + 1 && bprefix(q, p) && #[trigger] bprefix(q, item_pat(cs[j])) implies q.len() <= m1 by {
+        if j == n { assert(p.take(q.len() as int) == item_pat(cs[n]).take(q.len() as int)); }
+    }
+}
+// R8 outlined expression: number of characters of a String (assumed: chars() yields the characters of the view)
+#[verifier::external_body]
+pub fn outl_char_count(s: &String) -> (r: usize)
+    ensures r == s@.len(),
+{ /* verbatim: self.regex.original.chars().count() */ s.chars().count() }
+// NONE CASE of Node::insert: no child shares more than the node's prefix with p and none carries p itself => no leaf below carries p
+pub proof fn lemma_none_case<V>(n: Node<V>, p: Seq<char>)
+    requires wf(Item::Node(n)), tight(Item::Node(n)),
+        forall|j: int| 0 <= j < n.children@.len() ==> item_pat(#[trigger] n.children@[j]) != p,
+        forall|j: int, q: Seq<char>| 0 <= j < n.children@.len() && bprefix(q, p) && #[trigger] bprefix(q, item_pat(n.children@[j])) ==> q.len() <= n.regex.original@.len(),
+    ensures !has_pat(leaves_ms(Item::Node(n)), p),
+{
+    let cs = n.children@; let o = n.regex.original@;
+    if has_pat(leaves_ms(Item::Node(n)), p) {
+        let m = choose|m: Map<String, V>| #[trigger] leaves_ms(Item::Node(n)).count((p, m)) > 0;
+        lemma_children_has(cs, cs.len() as int, (p, m));
+        let j = choose|j: int| 0 <= j < cs.len() && leaves_ms(#[trigger] cs[j]).count((p, m)) > 0;
+        let c = cs[j];
+        assert(wf(c) && tight(c));
+        lemma_leaves_prefix(c, (p, m));
+        assert(item_pat(c) != p);
+        assert(c is Node);
+        // I0: the child node's prefix is a boundary prefix of itself, hence a common boundary prefix of p and of the child
+        assert(item_pat(c).take(item_pat(c).len() as int) =~= item_pat(c));
+        assert(bprefix(item_pat(c), item_pat(c)));
+        assert(item_pat(c).len() <= o.len());
+        assert(false);
+    }
+}
+// SOME CASE: the chosen child k either carries p itself, or shares M > |prefix| characters with p while no child carries p itself
+pub open spec fn chosen_ok<V>(cs: Seq<Item<V>>, o: Seq<char>, p: Seq<char>, k: int, mm: int) -> bool {
+    0 <= k < cs.len() && (item_pat(cs[k]) == p
+        || (mm > o.len() && mm <= p.len() && mm <= item_pat(cs[k]).len() && p.take(mm) == item_pat(cs[k]).take(mm) && boundary(p, mm)
+            && forall|j: int| 0 <= j < cs.len() ==> item_pat(#[trigger] cs[j]) != p))
+}
+pub proof fn lemma_some_case<V>(n: Node<V>, p: Seq<char>, k: int, mm: int)
+    requires wf(Item::Node(n)), good(Item::Node(n)), chosen_ok(n.children@, n.regex.original@, p, k, mm),
+    ensures !has_pat(leaves_children(n.children@.remove(k), n.children@.len() - 1), p),
+{
+    let cs = n.children@; let o = n.regex.original@; let rest = cs.remove(k);
+    if has_pat(leaves_children(rest, cs.len() - 1), p) {
+        let m = choose|m: Map<String, V>| #[trigger] leaves_children(rest, cs.len() - 1).count((p, m)) > 0;
+        lemma_children_has(rest, cs.len() - 1, (p, m));
+        let jr = choose|j: int| 0 <= j < rest.len() && leaves_ms(#[trigger] rest[j]).count((p, m)) > 0;
+        let j = if jr < k { jr } else { jr + 1 };
+        let c = cs[j]; let ck = cs[k];
+        assert(rest[jr] == c && j != k);
+        assert(wf(c) && tight(c) && wf(ck) && tight(ck));
+        assert(bprefix(o, item_pat(c)) && bprefix(o, item_pat(ck)));
+        lemma_leaves_prefix(c, (p, m));
+        let pc = item_pat(c); let lc = pc.len() as int;
+        if item_pat(ck) == p {
+            // c's prefix is a prefix of p == ck's pattern
+            if pc == p {
+                // two children with pattern p: both are leaves (I1 + I3 exclude nodes) holding a leaf (p, .) each
+                assert(c is Leaf) by { if c is Node { assert(pc.take(lc) =~= pc); assert(bprefix(pc, pc) && bprefix(pc, item_pat(ck))); } }
+                assert(ck is Leaf) by { if ck is Node { assert(p.take(p.len() as int) =~= p); assert(bprefix(p, item_pat(ck)) && bprefix(p, pc)); } }
+                let mk = ck->Leaf_0.values@;
+                assert(leaves_ms(ck).count((p, mk)) > 0);
+                if j < k { lemma_children_count_ge2(cs, cs.len() as int, j, k, (p, m)); lemma_children_count_ge(cs, cs.len() as int, k, (p, mk)); }
+                else { lemma_children_count_ge2(cs, cs.len() as int, k, j, (p, m)); lemma_children_count_ge(cs, cs.len() as int, k, (p, mk)); }
+                lemma_children_count_ge(cs, cs.len() as int, j, (p, m));
+                let t = leaves_ms(Item::Node(n));
+                assert(t.count((p, m)) > 0 && t.count((p, mk)) > 0);
+                assert(m == mk && t.count((p, m)) == 1);
+                assert(false);
+            } else {
+                assert(bprefix(pc, p));
+                assert(c is Node);
+                assert(pc.take(lc) =~= pc);
+                assert(boundary(pc, lc));
+                assert(bprefix(pc, pc) && bprefix(pc, item_pat(ck)));
+                assert(lc <= o.len());
+                assert(false);
+            }
+        } else {
+            assert(pc != p);
+            assert(bprefix(pc, p) && c is Node);
+            let l = if lc <= mm { lc } else { mm };
+            assert(boundary(p, lc));
+            lemma_bprefix_share(p, item_pat(ck), mm, l);
+            assert(pc == p.take(lc));
+            if lc <= mm {
+                assert(p.take(l) == pc);
+                assert(pc.take(lc) =~= pc);
+                assert(boundary(pc, lc));
+                assert(bprefix(pc, pc));
+                assert(bprefix(p.take(l), pc) && bprefix(p.take(l), item_pat(ck)));
+                assert(lc <= o.len());
+            } else {
+                assert(pc.take(mm) =~= p.take(lc).take(mm)); assert(p.take(lc).take(mm) =~= p.take(mm));
+                lemma_scan_prefix(p, pc, mm);
+                assert(bprefix(p.take(mm), pc) && bprefix(p.take(mm), item_pat(ck)));
+                assert(p.take(mm).len() <= o.len());
+            }
+            assert(false);
+        }
+    }
+}
+// the shape invariant after re-attaching the modified child at the end
+pub proof fn lemma_tight_replace<V>(n: Node<V>, k: int, c1: Item<V>, n2: Node<V>)
+    requires wf(Item::Node(n)), tight(Item::Node(n)), 0 <= k < n.children@.len(), n2.regex.original@ == n.regex.original@, n2.children@ == n.children@.remove(k).push(c1),
+        tight(c1), pre_or_eq(item_pat(c1), item_pat(n.children@[k])), c1 is Node ==> item_pat(c1).len() > n.regex.original@.len(),
+    ensures tight(Item::Node(n2)),
+{
+    let cs = n.children@; let o = n.regex.original@; let cs2 = n2.children@; let rest = cs.remove(k);
+    assert forall|i: int| 0 <= i < cs2.len() implies tight(#[trigger] cs2[i]) && (cs2[i] is Node ==> item_pat(cs2[i]).len() > o.len()) by {
+        if i < rest.len() { if i < k { assert(cs2[i] == cs[i]); } else { assert(cs2[i] == cs[i + 1]); } }
+    }
+    assert forall|i: int, j: int, q: Seq<char>| 0 <= i < cs2.len() && 0 <= j < cs2.len() && i != j && #[trigger] bprefix(q, item_pat(cs2[i])) && #[trigger] bprefix(q, item_pat(cs2[j])) implies q.len() <= o.len() by {
+        let oi = if i == rest.len() { k } else if i < k { i } else { i + 1 };
+        let oj = if j == rest.len() { k } else if j < k { j } else { j + 1 };
+        assert(oi != oj);
+        if i == rest.len() { if item_pat(c1) != item_pat(cs[k]) { lemma_bprefix_trans(q, item_pat(c1), item_pat(cs[k])); } } else { assert(cs2[i] == cs[oi]); }
+        if j == rest.len() { if item_pat(c1) != item_pat(cs[k]) { lemma_bprefix_trans(q, item_pat(c1), item_pat(cs[k])); } } else { assert(cs2[j] == cs[oj]); }
+        assert(bprefix(q, item_pat(cs[oi])) && bprefix(q, item_pat(cs[oj])));
+    }
+}
+// ... and after appending a new leaf that shares no more than the node's prefix with any child
+pub proof fn lemma_tight_push<V>(n: Node<V>, leaf: Item<V>, n2: Node<V>)
+    requires tight(Item::Node(n)), leaf is Leaf, n2.regex.original@ == n.regex.original@, n2.children@ == n.children@.push(leaf),
+        forall|j: int, q: Seq<char>| 0 <= j < n.children@.len() && bprefix(q, item_pat(leaf)) && #[trigger] bprefix(q, item_pat(n.children@[j])) ==> q.len() <= n.regex.original@.len(),
+    ensures tight(Item::Node(n2)),
+{
+    let cs = n.children@; let o = n.regex.original@; let cs2 = n2.children@;
+    assert forall|i: int| 0 <= i < cs2.len() implies tight(#[trigger] cs2[i]) && (cs2[i] is Node ==> item_pat(cs2[i]).len() > o.len()) by {
+        if i < cs.len() { assert(cs2[i] == cs[i]); }
+    }
+    assert forall|i: int, j: int, q: Seq<char>| 0 <= i < cs2.len() && 0 <= j < cs2.len() && i != j && #[trigger] bprefix(q, item_pat(cs2[i])) && #[trigger] bprefix(q, item_pat(cs2[j])) implies q.len() <= o.len() by {
+        if i < cs.len() { assert(cs2[i] == cs[i]); }
+        if j < cs.len() { assert(cs2[j] == cs[j]); }
+    }
+}
+// the two-child node built by a split: tight when the two patterns share no boundary prefix longer than `prefix`
+pub proof fn lemma_pair_tight<V>(a: Item<V>, b: Item<V>, prefix: Seq<char>, ic: bool)
+    requires tight(a), tight(b), boundary(prefix, prefix.len() as int),
+        a is Node ==> item_pat(a).len() > prefix.len(), b is Node ==> item_pat(b).len() > prefix.len(),
+        forall|q: Seq<char>| bprefix(q, item_pat(a)) && bprefix(q, item_pat(b)) ==> q.len() <= prefix.len(),
+    ensures forall|n: Node<V>| #![trigger tight(Item::Node(n))] is_pair_node(n, a, b, prefix, ic) ==> tight(Item::Node(n)),
+{
+    assert forall|n: Node<V>| is_pair_node(n, a, b, prefix, ic) implies #[trigger] tight(Item::Node(n)) by {
+        let cs = n.children@;
+        assert forall|i: int| 0 <= i < cs.len() implies tight(#[trigger] cs[i]) && (cs[i] is Node ==> item_pat(cs[i]).len() > prefix.len()) by { if i == 0 {} else { assert(i == 1); } }
+        assert forall|i: int, j: int, q: Seq<char>| 0 <= i < cs.len() && 0 <= j < cs.len() && i != j && #[trigger] bprefix(q, item_pat(cs[i])) && #[trigger] bprefix(q, item_pat(cs[j])) implies q.len() <= prefix.len() by {
+            if i == 0 { assert(j == 1); } else { assert(i == 1 && j == 0); }
+        }
+    }
+}
 pub open spec fn ins_post<V>(old: Item<V>, r: Item<V>, p: Seq<char>, id: String, v: V) -> bool {
     &&& wf(r) && !(r is Empty) && item_ic(r) == item_ic(old)
     &&& ins_law(leaves_ms(old), leaves_ms(r), p, id, v)
     &&& count(r) <= count(old) + 1
     // any common boundary prefix of the old item and of the new pattern is still a boundary prefix of the result's pattern
     &&& forall|q: Seq<char>| (old is Empty || bprefix(q, item_pat(old))) && bprefix(q, p) ==> #[trigger] bprefix(q, item_pat(r))
+    // the result's pattern is the old one or a boundary prefix of it; a leaf carrying exactly p stays that leaf
+    &&& old is Empty || pre_or_eq(item_pat(r), item_pat(old))
+    &&& (old is Leaf && item_pat(old) == p) ==> r is Leaf
+    // ONE LEAF PER PATTERN is preserved, and then the value goes into the existing leaf of that pattern whenever there is one
+    &&& good(old) ==> good(r) && ins_law2(leaves_ms(old), leaves_ms(r), p, id, v)
 }
 pub assume_specification [std::string::String::len] (s: &std::string::String) -> (r: usize) ensures r == vstd::utf8::encode_utf8(s@).len();
 pub assume_specification [<str as PartialEq>::eq] (a: &str, b: &str) -> (r: bool) ensures r == (a@ == b@);
@@ -521,6 +829,9 @@ impl<V> Leaf<V> {
     //@|     assert(ms0.count((p, m0)) > 0);
     //@|     assert(ms1 =~= ms0.remove((p, m0)).insert((p, m0.insert(id, item))));
     //@|     lemma_map_insert_len_le(m0, id, item);
+    //@|     assert(ins_law2(ms0, ms1, p, id, item));
+    //@|     if good(old_it) { lemma_uniq_ins(ms0, ms1, p, id, item); }
+    //@|     assert(p.take(p.len() as int) =~= p);
     //@| }
     //@| before `Item::Node(Node {`: proof {
     //@|     let n = prefix@.len() as int;
@@ -534,6 +845,12 @@ impl<V> Leaf<V> {
     //@|     assert(leaves_ms(old_it).add(leaves_ms(leaf)) =~= leaves_ms(old_it).insert((p, Map::<String, V>::empty().insert(id, item))));
     //@|     // maximality of the common prefix: a common boundary prefix of both patterns is not longer than `prefix`
     //@|     assert forall|q: Seq<char>| bprefix(q, p0) && bprefix(q, p) implies q.len() <= prefix@.len() by { assert(p0.take(q.len() as int) == p.take(q.len() as int)); }
+    //@|     // one leaf per pattern: the old leaf carries another pattern, the pair node is tight
+    //@|     assert(prefix@.take(n) =~= prefix@); lemma_scan_prefix(prefix@, p0, n);
+    //@|     lemma_pair_tight(old_it, leaf, prefix@, this.regex.ignore_case);
+    //@|     assert(!has_pat(leaves_ms(old_it), p)) by { if has_pat(leaves_ms(old_it), p) { let m = choose|m: Map<String, V>| #[trigger] leaves_ms(old_it).count((p, m)) > 0; assert((p, m) == (p0, m0)); } }
+    //@|     assert(ins_law2(leaves_ms(old_it), leaves_ms(old_it).insert((p, Map::<String, V>::empty().insert(id, item))), p, id, item));
+    //@|     if good(old_it) { lemma_uniq_ins(leaves_ms(old_it), leaves_ms(old_it).insert((p, Map::<String, V>::empty().insert(id, item))), p, id, item); }
     //@| }
 }
 pub proof fn lemma_map_insert_len_le<K, V>(m: Map<K, V>, k: K, v: V)
@@ -643,9 +960,35 @@ impl<V> Node<V> {
     //@|     assert(leaves_ms(left) == Multiset::singleton(newleaf));
     //@|     assert(leaves_ms(left).add(leaves_ms(old_it)) =~= leaves_ms(old_it).insert(newleaf));
     //@|     assert forall|q: Seq<char>| bprefix(q, o) && bprefix(q, p) implies q.len() <= prefix@.len() by { assert(p.take(q.len() as int) == o.take(q.len() as int)); }
+    //@|     // one leaf per pattern: the split happens strictly inside the node's prefix, so no leaf below carries p
+    //@|     if good(old_it) {
+    //@|         assert(n < o.len());
+    //@|         assert(prefix@.take(n) =~= prefix@); lemma_scan_prefix(prefix@, p, n);
+    //@|         lemma_pair_tight(left, old_it, prefix@, ic);
+    //@|         assert(!has_pat(leaves_ms(old_it), p)) by {
+    //@|             if has_pat(leaves_ms(old_it), p) {
+    //@|                 let m = choose|m: Map<String, V>| #[trigger] leaves_ms(old_it).count((p, m)) > 0;
+    //@|                 lemma_leaves_prefix(old_it, (p, m));
+    //@|                 assert(p.take(o.len() as int) == o.take(o.len() as int)) by { assert(o.take(o.len() as int) =~= o); }
+    //@|                 assert(o.len() <= n);
+    //@|             }
+    //@|         }
+    //@|         assert(ins_law2(leaves_ms(old_it), leaves_ms(old_it).insert(newleaf), p, id, item));
+    //@|         lemma_uniq_ins(leaves_ms(old_it), leaves_ms(old_it).insert(newleaf), p, id, item);
+    //@|     }
     //@| }
-    //@| loop 0: invariant this.children@ == cs0, *this.regex == *self.regex, wf(old_it), old_it == Item::Node(self), regex@ == p, p.len() < 0x7fff_ffff,
+    //@| outline `self.regex.original.chars().count()` => `outl_char_count(&this.regex.original)`
+    //@| loop 0: invariant_except_break none_eq(cs0, i as int, p), caps(cs0, i as int, p, max_prefix_size as int),
+    //@|     invariant this.children@ == cs0, *this.regex == *self.regex, wf(old_it), old_it == Item::Node(self), regex@ == p, p.len() < 0x7fff_ffff,
     //@|         forall|k: usize| max_prefix_item == Some(k) ==> k < cs0.len(),
+    //@|         // the running maximum: at least the node's own prefix (which IS the maximum while no child is selected) ...
+    //@|         o.len() <= max_prefix_size, max_prefix_item is None ==> max_prefix_size == o.len(),
+    //@|         // ... a selected child carries p itself or shares max_prefix_size > |prefix| characters with p ...
+    //@|         forall|k: usize| max_prefix_item == Some(k) ==> item_pat(cs0[k as int]) == p || (max_prefix_size > o.len() && shares(p, item_pat(cs0[k as int]), max_prefix_size as int)),
+    //@|         // ... and (first line, until a child carrying p itself is selected) no child seen so far carries p or shares more than the maximum with it
+    //@|     ensures eqsel(max_prefix_item, cs0, p) || (none_eq(cs0, cs0.len() as int, p) && caps(cs0, cs0.len() as int, p, max_prefix_size as int)),
+    //@| loophead 0: let ghost m_old = max_prefix_size as int;
+    //@| looptail 0: proof { lemma_caps_step(cs0, i as int, p, m_old, max_prefix_size as int, prefix_size as int); }
     //@| loopend 0: proof {
     //@|     // the node prefix is a boundary prefix of the new pattern (we are past the split test)
     //@|     assert(prefix_size as int == o.len());
@@ -653,8 +996,17 @@ impl<V> Node<V> {
     //@|     assert(o.take(o.len() as int) =~= o);
     //@|     assert(bprefix(o, p));
     //@| }
-    //@| before `let mut children = self.children.remove(child_index);`: let ghost idx = child_index as int; let ghost c0 = cs0[idx];
-    //@|     proof { assert(wf(c0)); }
+    //@| before `let mut children = self.children.remove(child_index);`: let ghost idx = child_index as int; let ghost c0 = cs0[idx]; let ghost mm = max_prefix_size as int;
+    //@|     proof {
+    //@|         assert(wf(c0));
+    //@|         if good(old_it) {
+    //@|             assert(chosen_ok(cs0, o, p, idx, mm));
+    //@|             lemma_some_case(self, p, idx, mm);
+    //@|             lemma_children_remove(cs0, idx);
+    //@|             lemma_uniq_sub(leaves_children(cs0.remove(idx), cs0.len() - 1), leaves_ms(c0));
+    //@|             assert(good(c0));
+    //@|         }
+    //@|     }
     //@| after `self.children.push(children);`: proof {
     //@|     let c1 = this.children@.last();
     //@|     let rest = cs0.remove(idx);
@@ -666,6 +1018,25 @@ impl<V> Node<V> {
     //@|     assert forall|i: int| 0 <= i < this.children@.len() implies wf(#[trigger] this.children@[i]) && !(this.children@[i] is Empty) && item_ic(this.children@[i]) == ic && bprefix(o, item_pat(this.children@[i])) by {
     //@|         if i < rest.len() { if i < idx { assert(rest[i] == cs0[i]); } else { assert(rest[i] == cs0[i + 1]); } }
     //@|     }
+    //@|     if good(old_it) {
+    //@|         let rl = leaves_children(rest, rest.len() as int);
+    //@|         lemma_ins_law2_lift(rl, leaves_ms(c0), leaves_ms(c1), p, id, item);
+    //@|         lemma_uniq_ins(rl.add(leaves_ms(c0)), rl.add(leaves_ms(c1)), p, id, item);
+    //@|         // a node result of the descent still has a prefix longer than this node's
+    //@|         if c1 is Node {
+    //@|             if item_pat(c0) == p {
+    //@|                 assert(c0 is Node);
+    //@|                 assert(tight(c0));
+    //@|                 assert(p.take(p.len() as int) =~= p);
+    //@|                 assert(bprefix(p, item_pat(c0)) && bprefix(p, p));
+    //@|                 assert(bprefix(p, item_pat(c1)));
+    //@|             } else {
+    //@|                 lemma_bprefix_share(p, item_pat(c0), mm, mm);
+    //@|                 assert(bprefix(p.take(mm), item_pat(c1)));
+    //@|             }
+    //@|         }
+    //@|         lemma_tight_replace(self, idx, c1, this);
+    //@|     }
     //@| }
     //@| after `self.children.push(Item::Leaf(Leaf::new(regex, id, item, self.regex.ignore_case)));`: proof {
     //@|     let c1 = this.children@.last();
@@ -675,6 +1046,15 @@ impl<V> Node<V> {
     //@|     assert(leaves_children(cs0, cs0.len() as int).add(leaves_ms(c1)) =~= leaves_children(cs0, cs0.len() as int).insert(newleaf));
     //@|     assert forall|i: int| 0 <= i < this.children@.len() implies wf(#[trigger] this.children@[i]) && !(this.children@[i] is Empty) && item_ic(this.children@[i]) == ic && bprefix(o, item_pat(this.children@[i])) by {
     //@|         if i < cs0.len() { assert(this.children@[i] == cs0[i]); }
+    //@|     }
+    //@|     if good(old_it) {
+    //@|         // no child was selected: none carries p, none shares more than this node's prefix with p => no leaf below carries p
+    //@|         assert(!eqsel(max_prefix_item, cs0, p));
+    //@|         lemma_none_case(self, p);
+    //@|         let l0 = leaves_children(cs0, cs0.len() as int);
+    //@|         assert(ins_law2(l0, l0.insert(newleaf), p, id, item));
+    //@|         lemma_uniq_ins(l0, l0.insert(newleaf), p, id, item);
+    //@|         lemma_tight_push(self, c1, this);
     //@|     }
     //@| }
 }
@@ -1041,12 +1421,14 @@ impl<V> RegexTreeMap<V> {
     pub open spec fn content(&self) -> Multiset<LeafV<V>> { leaves_ms(self.root) }
 
     //@@ fn src/regex_radix_tree/tree.rs :: impl <V>RegexTreeMap<V> / fn new -> r
-    //@| ensures r.wf(), r.content() == Multiset::<LeafV<V>>::empty(), item_ic(r.root) == ignore_case, count(r.root) == 0,
+    //@| ensures r.wf(), r.content() == Multiset::<LeafV<V>>::empty(), item_ic(r.root) == ignore_case, count(r.root) == 0, good(r.root),
 
     //@@ fn src/regex_radix_tree/tree.rs :: impl <V>RegexTreeMap<V> / fn insert
     //@| requires old(self).wf(), regex@.len() > 0, pat_ok(regex@),
     //@| ensures final(self).wf(), item_ic(final(self).root) == item_ic(old(self).root), count(final(self).root) <= count(old(self).root) + 1,
     //@|     exists|k: String| k@ == id@ && ins_law(old(self).content(), final(self).content(), regex@, k, item),
+    //@|     // one leaf per pattern is kept, and then storing under an existing pattern goes into ITS leaf (same id: the value is replaced)
+    //@|     good(old(self).root) ==> good(final(self).root) && exists|k: String| k@ == id@ && ins_law2(old(self).content(), final(self).content(), regex@, k, item),
 
     //@@ fn src/regex_radix_tree/tree.rs :: impl <V>RegexTreeMap<V> / fn remove -> r
     //@| requires old(self).wf(),
@@ -1096,12 +1478,13 @@ pub proof fn lemma_same_obs_trans<V>(a: Item<V>, b: Item<V>, c: Item<V>)
 }
 impl<V> UniqueRegexTreeMap<V> {
     //@@ fn src/regex_radix_tree/tree.rs :: impl <V>UniqueRegexTreeMap<V> / fn new -> r
-    //@| ensures r.tree.wf(), r.tree.content() == Multiset::<LeafV<V>>::empty(), item_ic(r.tree.root) == ignore_case,
+    //@| ensures r.tree.wf(), r.tree.content() == Multiset::<LeafV<V>>::empty(), item_ic(r.tree.root) == ignore_case, good(r.tree.root),
 
     //@@ fn src/regex_radix_tree/tree.rs :: impl <V>UniqueRegexTreeMap<V> / fn insert
     //@| requires old(self).tree.wf(), regex@.len() > 0, pat_ok(regex@),
     //@| ensures final(self).tree.wf(), item_ic(final(self).tree.root) == item_ic(old(self).tree.root),
     //@|     exists|k: String| k@ == regex@ && ins_law(old(self).tree.content(), final(self).tree.content(), regex@, k, item),
+    //@|     good(old(self).tree.root) ==> good(final(self).tree.root) && exists|k: String| k@ == regex@ && ins_law2(old(self).tree.content(), final(self).tree.content(), regex@, k, item),
 
     //@@ fn src/regex_radix_tree/tree.rs :: impl <V>UniqueRegexTreeMap<V> / fn remove -> r
     //@| requires old(self).tree.wf(),
